@@ -44,10 +44,15 @@ def reset():
     _fns.clear()
     _dcache.clear()
     _vars.clear()
+    FROZEN.clear()
+    _TWIN.clear()
     from . import oracle
 
     oracle.reset()
 
+
+FROZEN: dict = {}  # frozen twin generator -> variable generator (stop-gradient copies, see freeze)
+_TWIN: dict = {}  # variable generator -> frozen twin generator
 
 LOCK = threading.RLock()  # felupe runs weak forms in threads (parallel=True): atom tables are shared state
 
@@ -109,6 +114,9 @@ ONE = Fraction(1)
 
 class LP:
     __slots__ = ("t",)
+
+    # tensortrax Tensor.x: the value without dual parts (stop-gradient), see freeze()
+    x = property(lambda s: freeze(s))
 
     def __init__(s, t=None):
         s.t = t if t is not None else {}
@@ -396,6 +404,33 @@ def var(name):
     g = newgen(name)
     _vars[name] = g
     return LP.gen(g)
+
+
+def freeze(p) -> LP:
+    """the VALUE of p with its dependence on the variables cut for differentiation (tensortrax `Tensor.x` / `f(T)`:
+    the plain array without dual parts, a stop-gradient): every variable generator is replaced by a frozen twin, a
+    generator of its own that D treats as a constant.  `unfreeze` identifies the twins with their variables again;
+    obligations and branch decisions are stated on unfrozen values (core.ensures_eq, oracle.decide)"""
+    p = co(p)
+    with LOCK:
+        env = {}
+        for name, g in list(_vars.items()):
+            if g in FROZEN:
+                continue
+            t = _TWIN.get(g)
+            if t is None:
+                t = newgen(name + "^")
+                _TWIN[g] = t
+                FROZEN[t] = g
+            env[g] = LP.gen(t)
+    return subs(p, env)
+
+
+def unfreeze(p) -> LP:
+    p = co(p)
+    if not FROZEN or p is None:
+        return p
+    return subs(p, {t: LP.gen(g) for t, g in FROZEN.items()})
 
 
 def gen_of(p: LP) -> int:
